@@ -26,13 +26,13 @@ def main():
     seps = [[c] for c in range(0, 0x300)] + [[c] for c in (0x3b1, 0x4e2d, 0x1F600, 0xFF0D, 0x2212, 0x2d + 0x10000)]
     seps += [[]] + [[a, b] for a in (45, 95, 65, 44) for b in (45, 95, 48, 32)]
     so = run_impl("c19", {"job": "seps", "seps": seps})["out"]
-    incons = [i for i, r in enumerate(so) if not (r[0] == r[1] == r[2])]
+    incons = [i for i, r in enumerate(so) if not (r[0] == r[1] == r[2] == r[3])]
     cases = ["(%s, %s)" % (lz(s), cb(r[0])) for s, r in zip(seps, so)]
     out = coq_eval("c19sep", HDR, ["Definition cases : list (str*bool) := %s.\nEval vm_compute in bad_idx sep_ok cases.\n" % cl(cases)])
     bad = sorted(set(parse_nlist(parse_evals(out[0])[0]) + incons))
     ck.family("separator_table", len(seps), sum(1 for r in so if r[0]) , bad, bad, exhaustive=True,
               dist={"accepted": sum(1 for r in so if r[0]), "rejected": sum(1 for r in so if not r[0])},
-              samples=[{"family": "separator", "sep_codepoints": seps[45], "accepted(ctor,setter,trade.create_order)": so[45]}])
+              samples=[{"family": "separator", "sep_codepoints": seps[45], "accepted(ctor,setter,trade.create_order,ctor with config.order_sep overridden)": so[45]}])
     for i in bad[:5]:
         ck.fail("C19-sep", "separator %r: accepted=%s but the exchange's character set / length rule says otherwise" % (seps[i], so[i]),
                 {"call": "BetfairOrder(sep=...) / order.sep = ...", "sep_codepoints": seps[i], "impl": so[i]})
